@@ -20,7 +20,29 @@ to its division-free characterisation (`roundShift_isRounded`).
   `C09.scaled_bias_overflow_near_limits`).  `k < (promote D).digits` and `CmpZeroOk` only say that
   the instantiation compiles (`from_rep<result>(1)` converted to the source, `from >= 0`) — except
   for `eS > 0`, where `from >= 0` shifts the *source value* left by `eS` and must not overflow.
-* `scaled_native_truncates` — the native tag truncates toward zero.
+* `scaled_native_truncates` — the native tag truncates toward zero; `scaled_correctly_rounded` — all
+  four tags in one statement (value only), under the representability hypothesis of the property.
+* `scaled_nearest_cmp_overflow_refuted` — a class the correspondence harness does not reach
+  (source exponent `> 0`): the sign test `from >= 0` overflows. Reported, not yet in known_findings.
+
+## floating point → integer (`FVal.fin s m e = (-1)^s m 2^e`, every format `Fmt` with `FmtOk`)
+
+* `float_native_truncates`, `float_native_value` — native tag = `static_cast` = truncation toward zero.
+* `float_neg_inf_floor` — neg_inf is the floor for **every** canonical finite value whose floor fits
+  the destination (any format, any destination width): full proof, through the exactness of
+  `Source(Destination(x))` and of the subtraction in `CFloat` (`roundND_exact`).
+* `float_ties_up_of_exact_bias`, `float_nearest_of_exact_bias` — tie_to_pos_inf and nearest are
+  correctly rounded whenever the biased sum (`x + .5` in the source format, `x ± .5L` in long
+  double) is exact — precisely the complement of the classes
+  `C09.ties_up_float_bias_in_source_precision` / `C09.nearest_long_double_bias_rounds`, whose witnesses
+  are refuted in `ties_up_float_refuted`, `nearest_long_double_refuted`.
+* **partial**: `FloatNearestCorrect` (float/double sources are always correctly rounded under
+  nearest, because the long double sum is exact or rounds harmlessly) is stated as a `def … : Prop`
+  only; what is missing is the monotonicity of `Fmt.add` needed for `|x| < 2^-11`, where the sum does
+  round.  Floating → scaled conversions are covered by refutations only
+  (`neg_inf_float_to_scaled_refuted`, `ties_up_float_to_scaled_refuted`, `float_to_scaled_bias_refuted`):
+  every non-native mode has an open defect class there, and the remaining statement needs the
+  exactness of `power_value<Float>` by repeated squaring, not proved here.
 -/
 namespace Cnl.C09
 open Cnl Cnl.Spec Cnl.Rounding Cnl.RoundCvt Cnl.RoundCvtP
@@ -164,5 +186,133 @@ example : CmpZeroOk i16 3 (-1000) ∧ scaledToScaled .nrst i16 3 i16 5 (-1000) =
     ∧ scaledToScaled .nrst i16 3 i16 5 (-1002) = .ok (i16, -251) := by decide +kernel
 example : IsRounded .nearestAway (-40) (2^4) (-3) ∧ IsRounded .nearestUp (-40) (2^4) (-2) ∧ IsRounded .floor (-40) (2^4) (-3)
     ∧ IsRounded .truncate (-40) (2^4) (-2) := by decide
+
+/-! ## floating-point sources → built-in integer
+
+A finite source value is `FVal.fin s m e = (-1)^s · m · 2^e`; `sval s m` is its signed significand and
+`roundDyadic mode (sval s m) e` the integer the mode selects from the exact value. -/
+
+open Cnl.FloatP
+
+/-- native tag: the built-in `static_cast` … -/
+theorem float_native_truncates (f : Fmt) (D : IntTy) (x : FVal) :
+    floatToInt .nat f D x = fToInt D x := rfl
+
+/-- … which truncates toward zero, and is undefined exactly when the truncated value does not fit -/
+theorem float_native_value (D : IntTy) (s : Bool) (m : Nat) (e : Int) :
+    fToInt D (.fin s m e) = if D.InRange (roundDyadic .truncate (sval s m) e)
+      then .ok (roundDyadic .truncate (sval s m) e) else .ub .floatToIntRange := by
+  rw [← truncInt_eq_roundDyadic]; rfl
+
+/-- neg_inf: the floor of the exact source value, for every (canonical) finite source value whose
+floor is representable in `D` — every format with at least two significand bits, every destination
+that can hold `1` -/
+theorem float_neg_inf_floor (f : Fmt) (hf : FmtOk f) (D : IntTy) (hD : 1 ≤ D.bits) (hD1 : D.InRange 1)
+    (s : Bool) (m : Nat) (e : Int) (hx : f.Canonical (.fin s m e) = true)
+    (hfit : D.InRange (roundDyadic .floor (sval s m) e)) :
+    floatToInt .ninf f D (.fin s m e) = .ok (roundDyadic .floor (sval s m) e) :=
+  float_ninf_canonical f hf D hD hD1 s m e hx hfit
+
+/-- … also for non-canonical encodings `m · 2^e` as long as `|⌊x⌋| < 2^prec` -/
+theorem float_neg_inf_floor_small (f : Fmt) (hf : FmtOk f) (D : IntTy) (hD : 1 ≤ D.bits) (hD1 : D.InRange 1)
+    (s : Bool) (m : Nat) (e : Int) (hfit : D.InRange (roundDyadic .floor (sval s m) e))
+    (hsmall : (roundDyadic .floor (sval s m) e).natAbs < 2^f.prec) :
+    floatToInt .ninf f D (.fin s m e) = .ok (roundDyadic .floor (sval s m) e) :=
+  float_ninf_eval f hf D hD hD1 s m e hfit hsmall
+
+/-- tie_to_pos_inf: correctly rounded whenever the bias `from + Source(.5)` is exact in the source
+format (the complement of class `C09.ties_up_float_bias_in_source_precision`) -/
+theorem float_ties_up_of_exact_bias (f : Fmt) (hf : FmtOk f) (D : IntTy) (hD : 1 ≤ D.bits) (hD1 : D.InRange 1)
+    (s : Bool) (m : Nat) (e : Int) (s' : Bool) (m' : Nat) (e' : Int)
+    (hsum : f.add (.fin s m e) (f.ofDyadic false 1 (-1)) = .fin s' m' e')
+    (hexact : ExactBias s m e s' m' e' 1)
+    (hcanon : f.Canonical (.fin s' m' e') = true)
+    (hfit : D.InRange (roundDyadic .nearestUp (sval s m) e)) :
+    floatToInt .tpi f D (.fin s m e) = .ok (roundDyadic .nearestUp (sval s m) e) := by
+  rw [← floor_exactBias hexact] at hfit ⊢
+  exact float_tpi_eval_canonical f hf D hD hD1 _ s' m' e' hsum hcanon hfit
+
+/-- nearest: correctly rounded (ties away from zero) whenever the long double sum `from ± .5L` is
+exact (the complement of class `C09.nearest_long_double_bias_rounds`) -/
+theorem float_nearest_of_exact_bias (f : Fmt) (D : IntTy) (s : Bool) (m : Nat) (e : Int)
+    (s' : Bool) (m' : Nat) (e' : Int)
+    (hsum : (if 0 ≤ sval s m then x87ext.add (x87ext.cvt (.fin s m e)) (x87ext.ofDyadic false 1 (-1))
+             else x87ext.sub (x87ext.cvt (.fin s m e)) (x87ext.ofDyadic false 1 (-1))) = .fin s' m' e')
+    (hexact : ExactBias s m e s' m' e' (if 0 ≤ sval s m then 1 else -1))
+    (hfit : D.InRange (roundDyadic .nearestAway (sval s m) e)) :
+    floatToInt .nrst f D (.fin s m e) = .ok (roundDyadic .nearestAway (sval s m) e) := by
+  rw [float_nrst_eval f D s m e s' m' e' hsum, trunc_exactBias hexact]
+  simp only [intoRange, hfit, ite_true]
+
+/-- the full statement for `float` and `double` sources: every value is correctly rounded (the long
+double sum is exact, or rounds harmlessly for `|x| < 2^-11`).  Not proved here: it needs the
+monotonicity of `Fmt.add` for tiny `x`; `float_nearest_of_exact_bias` covers the exact sums. -/
+def FloatNearestCorrect : Prop :=
+  ∀ (f : Fmt), f = binary32 ∨ f = binary64 → ∀ (D : IntTy), 1 ≤ D.bits → ∀ (s : Bool) (m : Nat) (e : Int),
+    f.Canonical (.fin s m e) = true → D.InRange (roundDyadic .nearestAway (sval s m) e) →
+    floatToInt .nrst f D (.fin s m e) = .ok (roundDyadic .nearestAway (sval s m) e)
+
+/-! ### the floating-point defect classes (witnesses of known_findings.json) -/
+
+/-- `C09.ties_up_float_bias_in_source_precision`: `0x1.fffffep-2f + 0.5f` rounds to `1.0f` -/
+theorem ties_up_float_refuted :
+    floatToInt .tpi binary32 i64 (.fin false (2^24-1) (-25)) = .ok 1
+      ∧ roundDyadic .nearestUp (sval false (2^24-1)) (-25) = 0 ∧ i64.InRange 0 := by decide +kernel
+
+/-- `C09.nearest_long_double_bias_rounds`: the largest long double below `0.5`, plus `0.5L`, rounds to `1.0L` -/
+theorem nearest_long_double_refuted :
+    floatToInt .nrst x87ext u32 (.fin false (2^64-1) (-65)) = .ok 1
+      ∧ roundDyadic .nearestAway (sval false (2^64-1)) (-65) = 0 ∧ u32.InRange 0 := by decide +kernel
+
+/-- `C09.neg_inf_float_to_scaled_truncates`: `-0x1.fffffep-3` at resolution `2^-4` is `-3.99…` units;
+the code truncates to `-3`, the floor is `-4` -/
+theorem neg_inf_float_to_scaled_refuted :
+    floatToScaled .ninf binary32 i16 (-4) (.fin true (2^24-1) (-26)) = .ok (-3)
+      ∧ roundDyadic .floor (sval true (2^24-1)) (-26 - (-4)) = -4 ∧ i16.InRange (-4) := by decide +kernel
+
+/-- `C09.ties_up_float_to_scaled_truncates_after_bias`: `-2.0` at resolution `2^-1` is exactly `-4`
+units; the code adds `2^-2` and truncates `-3.5` to `-3` -/
+theorem ties_up_float_to_scaled_refuted :
+    floatToScaled .tpi binary32 i16 (-1) (.fin true (2^23) (-22)) = .ok (-3)
+      ∧ roundDyadic .nearestUp (sval true (2^23)) (-22 - (-1)) = -4 ∧ i16.InRange (-4) := by decide +kernel
+
+/-- `C09.float_to_scaled_bias_rounds`: `0x1.fffffep-10` at resolution `2^-8` is `0.49999997` units;
+adding `2^-9` in `float` rounds up to one unit -/
+theorem float_to_scaled_bias_refuted :
+    floatToScaled .nrst binary32 i32 (-8) (.fin false (2^24-1) (-33)) = .ok 1
+      ∧ roundDyadic .nearestAway (sval false (2^24-1)) (-33 - (-8)) = 0 ∧ i32.InRange 0 := by decide +kernel
+
+/-! ### non-vacuity (floating sources): ±2.5, ±2.75, ±0.5 in `float`, `double`, `long double` -/
+
+-- 2.5 = 5·2^-1, -2.5, -2.75 = -11·2^-2 as canonical binary32 values
+example : floatToInt .ninf binary32 i16 (.fin true (5 * 2^21) (-22)) = .ok (-3)
+    ∧ floatToInt .ninf binary32 i16 (.fin false (5 * 2^21) (-22)) = .ok 2
+    ∧ floatToInt .ninf binary64 i32 (.fin true (2^52) (-52)) = .ok (-1)
+    ∧ floatToInt .ninf x87ext i64 (.fin true (2^63) (-64)) = .ok (-1) := by decide +kernel
+example : floatToInt .tpi binary32 i16 (.fin true (5 * 2^21) (-22)) = .ok (-2)
+    ∧ floatToInt .tpi binary32 i16 (.fin false (5 * 2^21) (-22)) = .ok 3
+    ∧ floatToInt .tpi binary32 i16 (.fin true (11 * 2^20) (-22)) = .ok (-3) := by decide +kernel
+example : floatToInt .nrst binary32 i16 (.fin true (5 * 2^21) (-22)) = .ok (-3)
+    ∧ floatToInt .nrst binary32 i16 (.fin false (5 * 2^21) (-22)) = .ok 3
+    ∧ floatToInt .nrst binary64 u8 (.fin false (2^52) (-53)) = .ok 1
+    ∧ floatToInt .nrst binary64 i8 (.fin true (2^52) (-53)) = .ok (-1) := by decide +kernel
+example : floatToInt .nat binary32 i16 (.fin true (11 * 2^20) (-22)) = .ok (-2) := by decide +kernel
+-- an integral value above 2^prec: -(2^24-1)·2^10 from `float` to `int64_t`
+example : floatToInt .ninf binary32 i64 (.fin true (2^24-1) 10) = .ok (-17179868160)
+    ∧ binary32.Canonical (.fin true (2^24-1) 10) = true := by decide +kernel
+-- the hypotheses of the theorems hold on these instances
+example : FmtOk binary32 ∧ i16.InRange 1 ∧ binary32.Canonical (.fin true (5 * 2^21) (-22)) = true
+    ∧ i16.InRange (roundDyadic .floor (sval true (5 * 2^21)) (-22)) := by decide +kernel
+example : binary32.add (.fin true (5 * 2^21) (-22)) (binary32.ofDyadic false 1 (-1)) = .fin true (2^23) (-22)
+    ∧ ExactBias true (5 * 2^21) (-22) true (2^23) (-22) 1 ∧ binary32.Canonical (.fin true (2^23) (-22)) = true
+    ∧ roundDyadic .nearestUp (sval true (5 * 2^21)) (-22) = -2 := by decide +kernel
+example : x87ext.sub (x87ext.cvt (.fin true (5 * 2^21) (-22))) (x87ext.ofDyadic false 1 (-1)) = .fin true (3 * 2^62) (-62)
+    ∧ ExactBias true (5 * 2^21) (-22) true (3 * 2^62) (-62) (-1)
+    ∧ roundDyadic .nearestAway (sval true (5 * 2^21)) (-22) = -3 := by decide +kernel
+-- … and fail on the witnesses of the defect classes: the biased sums are not exact
+example : binary32.add (.fin false (2^24-1) (-25)) (binary32.ofDyadic false 1 (-1)) = .fin false (2^23) (-23)
+    ∧ ¬ ExactBias false (2^24-1) (-25) false (2^23) (-23) 1 := by decide +kernel
+example : x87ext.add (x87ext.cvt (.fin false (2^64-1) (-65))) (x87ext.ofDyadic false 1 (-1)) = .fin false (2^63) (-63)
+    ∧ ¬ ExactBias false (2^64-1) (-65) false (2^63) (-63) 1 := by decide +kernel
 
 end Cnl.C09
